@@ -427,10 +427,12 @@ func (c *ClusterInfo) syncSecureServingConfigLocked(newSecureServing proxyv1alph
 	if !apiequality.Semantic.DeepEqual(oldSecureServing.KeyData, newSecureServing.KeyData) ||
 		!apiequality.Semantic.DeepEqual(oldSecureServing.CertData, newSecureServing.CertData) {
 		// key or cert changed
-		if len(newSecureServing.KeyData) == 0 && len(newSecureServing.CertData) == 0 {
+		if len(newSecureServing.KeyData) == 0 || len(newSecureServing.CertData) == 0 {
+			// no key pair, or an incomplete one (cert without key or key without cert): there is nothing to
+			// serve with, the previous certificate must not outlive the object that carried it
 			klog.Infof("[cluster info] cluster=%q cleanup key and cert", c.Cluster)
 			newCfg.certs = nil
-		} else if len(newSecureServing.KeyData) > 0 && len(newSecureServing.CertData) > 0 {
+		} else {
 			cert, err := tls.X509KeyPair(newSecureServing.CertData, newSecureServing.KeyData)
 			if err != nil {
 				return fmt.Errorf("invalid serving cert keypair: %v", err)
